@@ -940,7 +940,11 @@ class ResultHandler(PoolThread):
         on_state_change = self.on_state_change
 
         time_terminate = None
-        while cache and self._state != TERMINATE:
+        # keep consuming until every worker has exited, not just until the
+        # cache is empty: a worker does not exit before the results it
+        # sent (also those nobody is waiting for any more) were consumed.
+        workers_joined = False
+        while (cache or not workers_joined) and self._state != TERMINATE:
             if check_timeouts is not None:
                 check_timeouts()
             try:
@@ -958,6 +962,7 @@ class ResultHandler(PoolThread):
             try:
                 join_exited_workers(shutdown=True)
             except WorkersJoined:
+                workers_joined = True
                 now = monotonic()
                 if not time_terminate:
                     time_terminate = now
